@@ -836,6 +836,16 @@ theorem returns_action (K : Consts) (hK : ConstsOk K) (env : Env) (F : FloatLaws
     simp only [clientReturns, hK.okStatus, hkind, hret]
     simp [parseJson_text _ ht, htree, Dec.bind, soleMember, jsonTCfg, hrt, ofTRes', decRet]
 
+theorem jsonLeaf_ne_null : ∀ x, jsonEnc.leaf x ≠ .null := by
+  intro x
+  cases x with
+  | f64 b =>
+    simp only [jsonEnc, jsonTreeLeaf]
+    split
+    · simp
+    · split <;> simp
+  | _ => simp [jsonEnc, jsonTreeLeaf]
+
 theorem ne_of_bytesLt {a b : Bytes} (h : bytesLt a b = true) : a ≠ b := by
   intro e; subst e; rw [bytesLt_irrefl] at h; cases h
 
@@ -915,8 +925,7 @@ theorem returns_elements (K : Consts) (hK : ConstsOk K) (env : Env) (F : FloatLa
         have htree : treeOf jsonEnc ((wcfg K env).finish [(K.fElements, .arr ds), (K.fPaging, d)]) =
             .obj [(K.fElements, .arr (treeOfItems jsonEnc ds)), (K.fPaging, treeOf jsonEnc d)] := by
           simp [EncCfg.finish, wcfg, hK.sortKeys, sortByKey, insertByKey, hK.elemPaging, treeOf, treeOfKvs, jsonEnc]
-        have hnn : treeOf jsonEnc d ≠ .null :=
-          treeOf_ne_null jsonEnc (by intro x; cases x <;> simp [jsonEnc, jsonTreeLeaf] <;> split <;> simp) d
+        have hnn : treeOf jsonEnc d ≠ .null := treeOf_ne_null jsonEnc jsonLeaf_ne_null d
         have hmem : memberOf K.fPaging [(K.fElements, Json.JVal.arr (treeOfItems jsonEnc ds)), (K.fPaging, treeOf jsonEnc d)] =
             some (treeOf jsonEnc d) := by
           simp only [memberOf, List.lookup, hne, beq_self_eq_true]
@@ -931,8 +940,10 @@ theorem returns_elements (K : Consts) (hK : ConstsOk K) (env : Env) (F : FloatLa
         simp only [List.append_nil] at hk0
         have hpj := parseJson_text _ ht
         rw [htree] at hpj
+        have hrt' : ofTRes' (treeRead (jsonTCfg env 0) false [.key K.fPaging] (.ref tCollMeta) (treeOf jsonEnc d)) =
+            .ok (norm env encFuel (.ref tCollMeta) p) := by simp [jsonTCfg, hrt, ofTRes']
         rcases hkind with hk' | hk' <;>
           simp [clientReturns, hK.okStatus, hk', hty, hpj, Dec.bind, hk0, hmemE, hmem,
-            hel, decRet, hmeta, jsonTCfg, hrt, ofTRes']
+            hel, decRet, hmeta, hrt']
 
 end Restli.E2E
